@@ -79,7 +79,7 @@ func matchStatement(cur Statement, node ipld.Node) (_ matchResult, leafMost Stat
 			if res == nil { // optional selector didn't match
 				return matchResultOptionalNoData, nil
 			}
-			return boolToRes(datamodel.DeepEqual(s.value, res))
+			return boolToRes(safeDeepEqual(s.value, res))
 		}
 	case KindGreaterThan:
 		if s, ok := cur.(equality); ok {
@@ -241,6 +241,18 @@ func matchStatement(cur Statement, node ipld.Node) (_ matchResult, leafMost Stat
 		}
 	}
 	panic(fmt.Errorf("unimplemented statement kind: %s", cur.Kind()))
+}
+
+// safeDeepEqual is datamodel.DeepEqual, except that values DeepEqual can't
+// compare are simply not equal: it panics on an unsigned integer beyond the
+// int64 range, which argument data received from an untrusted party may contain.
+func safeDeepEqual(x, y ipld.Node) (equal bool) {
+	defer func() {
+		if recover() != nil {
+			equal = false
+		}
+	}()
+	return datamodel.DeepEqual(x, y)
 }
 
 // accumulator collects the results of the statements of a connective (or of the
